@@ -26,6 +26,19 @@ CHECKS['C12'] = {
     'explanation': 'Partitions include single-entry levels, which use a separate implementation.',
 }
 
+CHECKS['C18'] = {
+    'harnesses': [{'harness': 'ring_sim', 'binary': 'ring_sim'}],
+    'technique': 'deterministic simulation: seeded producer/consumer op sequences against a deque + shadow-memory model, under ASan',
+    'design_ref': 'DESIGN.md 4.3, 6 (C18)',
+    'level_text': 'Seeded search over producer (alloc/fill/commit) and consumer (peek/pop) op sequences on pdu_ring_buffer for 14 (size, layout) configurations; '
+                  'after every op: FIFO order, byte-exact content of all live PDUs, bounds, non-overlap, idempotent allocation, and allocation failure only when the '
+                  "ring's placement rules leave no room. Storage is an exactly sized heap block, so ASan reports any access outside it. Sampling, not proof.",
+    'level_note': "trusted: the placement-rule model in harness/ring_sim.cpp (one spare byte before the oldest PDU, wrap only to the start, pointers of an empty ring stay in place "
+                  "as the repository's own ring_buffer_tests document); payloads 1..251",
+    'assumptions': ['ops are atomic (Radio::lock_guard in production)', 'PDU payload length 1..251 (largest LL payload); alloc size >= memory size of the PDU committed into it'],
+    'explanation': 'A sanitizer abort counts as a violation for this property.',
+}
+
 # properties that are deliberately not decided by simulation (see DESIGN.md section 7)
 NOT_APPLICABLE = {
     'C04': 'compile-time mapping of the declaration to handles: no schedule, clock, fault or history can influence it (DESIGN.md 7); mapping errors still surface under C02/C03, whose model has an independent handle table',
